@@ -177,7 +177,8 @@ impl LangInterpreter for Italian {
                 }
             }
             "milione" if b.is_range_free(6, 8) => {
-                if b.peek(2) != b"1" {
+                let peek = b.peek(3);
+                if peek != b"1" && peek != b"001" {
                     Err(Error::NaN)
                 } else {
                     b.shift(6)
@@ -198,7 +199,8 @@ impl LangInterpreter for Italian {
                 }
             }
             "miliardo" => {
-                if b.peek(2) != b"1" {
+                let peek = b.peek(3);
+                if peek != b"1" && peek != b"001" {
                     Err(Error::NaN)
                 } else {
                     b.shift(9)
@@ -219,7 +221,8 @@ impl LangInterpreter for Italian {
                 }
             }
             "bilione" => {
-                if b.peek(2) != b"1" {
+                let peek = b.peek(3);
+                if peek != b"1" && peek != b"001" {
                     Err(Error::NaN)
                 } else {
                     b.shift(12)
